@@ -271,11 +271,7 @@ func (r *rec) RPCSearchPoints(a *cluster.RPCSearchPointsRequest, p *cluster.RPCS
 
 // serve the node's RPC handlers (through the recorder) with the real mrpc server on a listener the
 // harness controls
-func serveNode(n *cluster.ClusterNode, addr string) (*fnet, *rec, error) {
-	ln, err := net.Listen("tcp", addr)
-	if err != nil {
-		return nil, nil, err
-	}
+func serveNode(n *cluster.ClusterNode, ln net.Listener) (*fnet, *rec, error) {
 	fn := &fnet{ln: ln, conns: map[*fconn]struct{}{}}
 	rc := &rec{n: n}
 	srv := rpc.NewServer()
@@ -283,7 +279,7 @@ func serveNode(n *cluster.ClusterNode, addr string) (*fnet, *rec, error) {
 		ln.Close()
 		return nil, nil, err
 	}
-	hs := mrpc.NewHTTPServer(addr, srv)
+	hs := mrpc.NewHTTPServer(ln.Addr().String(), srv)
 	go hs.Serve(&fln{Listener: ln, fn: fn})
 	return fn, rc, nil
 }
